@@ -6,9 +6,6 @@ use std::collections::BTreeMap;
 pub struct Settings {
     pub string_formats: Vec<String>,
     pub number_formats: Vec<String>,
-    /// the file system it was built from contains a constructor-free alias cycle (KF-C04-4)
-    #[serde(default)]
-    pub alias_cycle: bool,
 }
 impl Settings {
     pub fn to_json(&self) -> String {
